@@ -23,18 +23,21 @@ import (
 // serialised and no latch is held, but the snapshot recorder is still open, so
 // transactions committed from the callback land in the snapshot's log tail.
 type tailWriter struct {
-	buf   bytes.Buffer
-	fire  func()
-	fired bool
+	buf    bytes.Buffer
+	fire   func()
+	fireAt int // index of the Write call on which to fire (0 = the first)
+	calls  int
+	fired  bool
 }
 
 func (t *tailWriter) Write(p []byte) (int, error) {
-	if !t.fired {
+	if !t.fired && t.calls >= t.fireAt {
 		t.fired = true
 		if t.fire != nil {
 			t.fire()
 		}
 	}
+	t.calls++
 	return t.buf.Write(p)
 }
 
@@ -66,6 +69,19 @@ func (h c13History) prepare() (*c13Built, error) {
 	h.build(w)
 	b.states = append(b.states, w.M.Clone())
 	tw := &tailWriter{}
+	if h.big {
+		// a state larger than one s2 block is written in several calls, all but the
+		// last while a block latch is held: fire on the LAST state write (the final
+		// flush), found by a dry run on an identical collection
+		dry := model.NewWorld(b.spec.config(0))
+		h.build(dry)
+		cnt := &tailWriter{}
+		if err := dry.C.Snapshot(cnt); err != nil {
+			return nil, err
+		}
+		dry.Close()
+		tw.fireAt = cnt.calls - 1
+	}
 	tw.fire = func() {
 		for _, acts := range h.tail {
 			prev := w.M.Clone()
